@@ -25,11 +25,13 @@ SetShock(prof, s, j, v) == [k \in DOMAIN prof |-> IF k = s THEN [i \in 1..Len(pr
 \* pairs: <<var, target date, shock, instrument date>>
 PairSets(id) == LET nv == Len(Model(id).vars) ns == Len(Model(id).shocks) IN
     { {<<1, 2, 1, 2>>}, {<<1, 3, 1, 2>>}, {<<1, 3, 1, 3>>}, {<<1, 2, 1, 3>>}, {<<nv, 3, ns, 1>>}, {<<1, 4, 1, 4>>}, {<<nv, 4, ns, 3>>} }
-    \cup (IF nv = 2 /\ ns = 2 THEN { {<<1, 2, 1, 2>>, <<2, 3, 2, 3>>}, {<<1, 3, 1, 1>>, <<2, 2, 2, 2>>} } ELSE {})
+    \cup (IF nv = 2 /\ ns = 2 THEN { {<<1, 2, 1, 2>>, <<2, 3, 2, 3>>}, {<<1, 3, 1, 1>>, <<2, 2, 2, 2>>},
+                                          {<<1, 3, 1, 3>>, <<2, 2, 2, 2>>} }      \* the first shock is the later instrument
+                                   ELSE {})
 PlanScen == UNION {{[id |-> id, dev |-> dv, init |-> ini, u |-> us, a |-> as, mode |-> md, pairs |-> ps, prior |-> pr] :
                       dv \in BOOLEAN, ini \in {x \in InitDevs(id) : x[1][1] # RZero}, us \in UProfiles(id),
                       as \in {x \in AProfiles(id) : Cardinality(x) <= 1}, md \in {"ant", "unant"}, ps \in PairSets(id),
-                      pr \in {RZero, Q(1, 2)}} : id \in {"L1", "L2", "L3", "L9"}}
+                      pr \in {RZero, Q(1, 2)}} : id \in {"L1", "L2", "L3", "L6", "L9"}}
 \* In anticipated mode the whole plan is known from period 1; a surprise (unanticipated shock) at or after an instrument date would
 \* change the information the plan was computed under, and what "hitting the target" then means is not specified: anticipated plans
 \* are combined with anticipated base shocks only, unanticipated plans with any base.
@@ -37,10 +39,11 @@ PlanScenOk(s) == IF s.mode = "ant" THEN s.u = {} ELSE s.u # {}
 
 \* the shock profiles of the planned simulation's input: instruments at their prior value
 Orig(s, md) == IF md = "ant" THEN Prof(s.id, s.a) ELSE Prof(s.id, s.u)
-\* the true instrument values are those of the base scenario plus 1 (so that the instruments are non-zero shocks)
+\* the true instrument values are those of the base scenario plus the number of the shock (so that the instruments are non-zero shocks,
+\* and different shocks for different instruments: recovering them in the wrong order shows)
 TrueProf(s) == LET RECURSIVE F(_, _)
                    F(prof, S) == IF S = {} THEN prof
-                                 ELSE LET p == CHOOSE x \in S : TRUE IN F(SetShock(prof, p[4], p[3], RAdd(prof[p[4]][p[3]], ROne)), S \ {p})
+                                 ELSE LET p == CHOOSE x \in S : TRUE IN F(SetShock(prof, p[4], p[3], RAdd(prof[p[4]][p[3]], R(p[3]))), S \ {p})
                IN F(Orig(s, s.mode), s.pairs)
 PriorProf(s) == LET RECURSIVE F(_, _)
                     F(prof, S) == IF S = {} THEN prof
